@@ -73,9 +73,9 @@ from BPTK_Py.util.floating_point import precision_and_scale, scale
 from decimal import Decimal
 bad = []
 n = 0
-S = int(sys.argv[2]); M = int(sys.argv[3])
-for s in range(0, S + 1):
-    for m in range(-M, M + 1):
+S = int(sys.argv[2]); M = int(sys.argv[3]); S2 = int(sys.argv[4]); M2 = int(sys.argv[5])
+for s in range(0, S2 + 1):
+    for m in range(-(M if s <= S else M2), (M if s <= S else M2) + 1):
         d = Decimal(m).scaleb(-s)
         x = float(d)
         want = max(0, -d.normalize().as_tuple().exponent) if m != 0 else 0
@@ -94,15 +94,16 @@ print(n, repr(bad[:5]))
 
 def lattice(prop, tier):
     S, M = (4, 2000) if tier == 'quick' else (6, 100000)
+    S2, M2 = (9, 300) if tier == 'quick' else (10, 3000)     # small magnitudes (dt = 1e-5, 1.25e-5, ...) with fewer mantissas
     t = time.time()
     try:
-        p = subprocess.run(['/venv/bin/python', '-W', 'ignore', '-c', LATTICE, binder.REPO, str(S), str(M)], capture_output=True,
+        p = subprocess.run(['/venv/bin/python', '-W', 'ignore', '-c', LATTICE, binder.REPO, str(S), str(M), str(S2), str(M2)], capture_output=True,
                            text=True, timeout=600)
         out = p.stdout.strip().splitlines()[-1] if p.stdout.strip() else ''
         n, bad = out.split(' ', 1)
         ok = bad.strip() == '[]'
         return dict(name='%s/floating_point.py::scale/lattice' % prop, qualname='scale', kind='bounded',
-                    bound='exhaustive over x = m*10^-s, s <= %d, |m| <= %d' % (S, M), cases=int(n), secs=round(time.time() - t, 2),
+                    bound='exhaustive over x = m*10^-s, s <= %d, |m| <= %d, and s <= %d, |m| <= %d' % (S, M, S2, M2), cases=int(n), secs=round(time.time() - t, 2),
                     status='discharged' if ok else 'counterexample', solver='execution of the real function (CPython)',
                     model=None if ok else dict(kind='scale', witnesses=bad))
     except Exception as e:
